@@ -235,4 +235,13 @@ def assumptions(mod):
 
 
 if __name__ == "__main__":
-    sys.exit(main())
+    try:
+        rc = main()
+        sys.stdout.flush()
+    except BrokenPipeError:
+        rc = 1
+        try:
+            sys.stdout.close()
+        except Exception:  # noqa
+            pass
+    os._exit(rc if isinstance(rc, int) else 2)
